@@ -52,10 +52,14 @@ def cases(tier, seed):
     for q in al.Q_ORDER:
         fam.append(["L", "Q." + q])
         fam.append(["L", "Q." + q + "@cw"])
+    for q in al.Q_ORDER:
+        fam.append(["G", "Q." + q])
+        fam.append(["G", "Q." + q + "@cw"])
+    fam += [["SP", ["L", "P.triA#int"]], ["SP", ["L", "Q.mixg"]], ["SP", ["PC", "hollow", "frac"]], ["SP", ["L", "Q.blob@cw"]]]
     fam += [["CQ", "ringc"], ["CQ", "twoc"], ["CQ", "xringc"]]
     for n in range(0, len(fam), 24):
         chunk = fam[n : n + 24]
-        specs.append({"id": "m:%d:%s" % (n, al.expr_id(chunk[0]) if chunk[0][0] != "CQ" else chunk[0][1]), "shapes": chunk, "tier": tier})
+        specs.append({"id": "m:%d:%s" % (n, al.expr_id(chunk[0])), "shapes": chunk, "tier": tier})
     return specs
 
 
@@ -66,7 +70,7 @@ def build(e):
 
 
 def name(e):
-    return "CQ." + e[1] if e[0] == "CQ" else al.expr_id(e)
+    return al.expr_id(e)
 
 
 def run_case(spec):
